@@ -222,7 +222,7 @@ func runC10(seed int64, tier string, sc *Script) map[string]any {
 	}
 	defer os.RemoveAll(tmp)
 	self, _ := os.Executable()
-	scenarios := 6
+	scenarios := 18
 	if tier == "thorough" {
 		scenarios = 120
 	}
